@@ -360,12 +360,16 @@ def run(ctx, chk):
     dm = codec.decoder_methods(ctx)
     nd = 0
     for mname, d in sorted(dm.items()):
-        if d["cls"] in ("enum", "mask"):
+        rty = d["ret"].replace(" ", "")
+        rty = rty[len("Result<"):-1].split("::")[-1] if rty.startswith("Result<") else rty
+        if rty in enums or rty in masks:
             nd += 1
-            exp = "from_u32" if d["ty"] in enums else ("from_bits" if d["ty"] in masks else None)
-            chk.check(RD, d["via"] == exp and d["problems"] == [], "Decoder::" + mname,
-                      "decodes %s via %s (%s)" % (d["ty"], d["via"], d["problems"]), raw.where(mname, "Decoder"),
-                      sample={"type": d["ty"], "via": d["via"], "err": d["err"]})
+            exp = "from_u32" if rty in enums else "from_bits"
+            good = d["cls"] in ("enum", "mask") and d["ty"] == rty and d["via"] == exp and d["problems"] == []
+            chk.check(RD, good, "Decoder::" + mname,
+                      "returns %s but decodes via %s::%s (%s)%s" % (rty, d["ty"], d["via"], "; ".join(d["problems"]) or "shape: " + d["cls"],
+                                                             "" if d["cls"] != "other" else " - not the audited `if let Ok(word) = self.word() { T::%s(word).ok_or(..) }` shape" % exp),
+                      raw.where(mname, "Decoder"), sample={"type": d["ty"], "via": d["via"], "err": d["err"]})
     chk.floor(RD, "typed decoder methods", nd, 56)
     chk.analysed.update({"enums": len(enums), "masks": len(masks), "from_u32_arms": n_arms, "transmutes": ntrans,
                          "from_str_impls": nstr, "aliases": nalias})
